@@ -12,7 +12,50 @@ from harness import engine_run as er
 from harness import wfgen
 
 
-def gen_core_program(rng, p_partial=0.15):
+def add_engine_commands(rng, prog, p_cmd):
+    """engine commands in on-clauses: fail / succeed / noop / pause as first, middle or last element of a
+    clause; `pause` preferably with targets after it (they go to the command backlog); at most one
+    pause per clause (two pauses in one list: RunExistingTask commands saved to the backlog, not modelled)"""
+    for t in prog['tasks']:
+        if rng.random() >= p_cmd:
+            continue
+        cl = rng.choice(['on_success', 'on_success', 'on_error', 'on_complete'])
+        routes = t[cl]
+        cmd = rng.choice(['pause', 'pause', 'pause', 'fail', 'succeed', 'noop'])
+        if any(r['to'] in wfgen.ENGINE_CMDS for r in routes):
+            continue
+        if cmd == 'pause' and routes:
+            pos = rng.randint(0, len(routes) - 1) if rng.random() < 0.8 else len(routes)
+        else:
+            pos = rng.randint(0, len(routes))
+        routes.insert(pos, {'to': cmd, 'guard': None if rng.random() < 0.85 else ['lit', rng.choice([True, False])]})
+    return prog
+
+
+def gen_pause_backlog(rng):
+    """directed shape: a task completes with `on-success: [pause, x…]` while another branch still has work in
+    flight (the commands after `pause` are saved to the backlog; a stop while PAUSED + the late result of the
+    other branch poll the backlog in a stopped workflow)"""
+    def task(n, succ=(), err=(), join=None, action='noop'):
+        return {'name': n, 'action': [action], 'join': join,
+                'on_success': [{'to': x, 'guard': None} for x in succ],
+                'on_error': [{'to': x, 'guard': None} for x in err], 'on_complete': []}
+    after = rng.choice([['x'], ['x', 'y'], ['x', 'fail'], ['noop', 'x']])
+    tasks = [task('a', succ=['pause'] + after), task('b', succ=rng.choice([[], ['c'], ['j']]))]
+    names = set(n for n in after if n not in wfgen.ENGINE_CMDS)
+    for n in sorted(names):
+        tasks.append(task(n, succ=['j'] if rng.random() < 0.3 else []))
+    used = set(r['to'] for t in tasks for r in t['on_success'])
+    if 'c' in used:
+        tasks.append(task('c'))
+    if 'j' in used:
+        tasks.append(task('j', join=rng.choice(['all', 'one'])))
+    return {'name': 'wf', 'type': 'direct', 'tasks': tasks}
+
+
+def gen_core_program(rng, p_partial=0.15, p_cmd=0.0):
+    if p_cmd and rng.random() < 0.25:
+        return gen_pause_backlog(rng)
     prog = wfgen.gen_dag(rng, p_cycle=0.0, p_defaults=0.2, p_cmd=0.0)
     for t in prog['tasks']:
         if rng.random() < 0.12:
@@ -35,6 +78,8 @@ def gen_core_program(rng, p_partial=0.15):
         j = t.get('join')
         if j is not None and j != 'all' and wfgen.out_names(prog, t):
             t['join'] = 'all'
+    if p_cmd:
+        add_engine_commands(rng, prog, p_cmd)
     return prog
 
 
@@ -168,10 +213,10 @@ def model_obs(o):
     }
 
 
-def run_case(ctx, prog, table, policy, seed, ops=None, max_steps=300):
+def run_case(ctx, prog, table, policy, seed, ops=None, max_steps=300, id_mode='random'):
     """returns (events, real observations, trace-like dict) or None if the definition is rejected"""
     from harness.engine_driver import EngineWorld
-    w = EngineWorld(seed=seed)
+    w = EngineWorld(seed=seed, id_mode=id_mode)
     y = wfgen.render_yaml(prog)
     w.create_workflows(y)
     rng = random.Random(seed)
@@ -225,11 +270,11 @@ def run_case(ctx, prog, table, policy, seed, ops=None, max_steps=300):
             'errors': list(w.errors), 'exhausted': step >= max_steps}
 
 
-def run_chunk(ctx, n_programs, mode='plain'):
+def run_chunk(ctx, n_programs, mode='plain', p_cmd=0.3):
     drv = ctx.driver()
     rng = ctx.rng
     for i in range(n_programs):
-        prog = gen_core_program(rng)
+        prog = gen_core_program(rng, p_cmd=p_cmd if rng.random() < 0.6 else 0.0)
         table = wfgen.gen_oracle_table(rng, prog, p_err=0.1)
         policy = rng.choice(['random', 'random', 'fifo', 'lifo'])
         seed = rng.getrandbits(32)
@@ -239,8 +284,22 @@ def run_chunk(ctx, n_programs, mode='plain'):
             ops = [{'at': k1, 'op': 'pause'}, {'at': rng.choice([k1 + rng.randint(0, 15), 10 ** 6]), 'op': 'resume'}]
         if mode in ('stop', 'mixed') and rng.random() < (1.0 if mode == 'stop' else 0.3):
             ops.append({'at': rng.randint(0, 30), 'op': 'stop', 'state': rng.choice(['SUCCESS', 'ERROR', 'CANCELLED'])})
+        has_pause = any(r['to'] == 'pause' for t in prog['tasks'] for cl in ('on_success', 'on_error', 'on_complete')
+                        for r in t[cl])
+        has_cmd = any(r['to'] in wfgen.ENGINE_CMDS for t in prog['tasks'] for cl in ('on_success', 'on_error', 'on_complete')
+                      for r in t[cl])
+        if has_pause:
+            # a `pause` command needs an operator to go on: resume when nothing is deliverable (and once earlier)
+            if rng.random() < 0.5:
+                ops.append({'at': rng.randint(5, 40), 'op': 'resume'})
+            ops += [{'at': 10 ** 6, 'op': 'resume'}, {'at': 10 ** 6 + 1, 'op': 'resume'}]
+        if has_cmd:
+            ctx.count('core', 'engine-commands')
         try:
-            r = run_case(ctx, prog, table, policy, seed, ops=[dict(o) for o in ops])
+            # a join restored from the backlog gets a second row: the join logic then reads "the latest row of a
+            # task" = the row the database lists last; sequential ids make that the creation order (the model's)
+            r = run_case(ctx, prog, table, policy, seed, ops=[dict(o) for o in ops],
+                         id_mode='seq' if has_pause else 'random')
         except Exception as e:
             from mistral import exceptions as exc
             if isinstance(e, exc.MistralException):
